@@ -192,4 +192,5 @@ def run(prog: Program, rep: Report, tier: str = "quick") -> None:
     from . import game
 
     game.add_instances(rep, game.c05_job, [(i, tier) for i in range(n)], "R5.4", 14 * n)
+    rep.arbitrate({"R5.1"}, "R5.4", "members move in proportion to their own inflated variance")
     rep.supersede({"R5.1"}, "R5.4", "members move in proportion to their own inflated variance")
